@@ -1,5 +1,6 @@
 """`dwv replay <file>`: re-observe a reported violation against the CURRENT /repo."""
 import json
+import re
 import os
 import sys
 
@@ -27,6 +28,29 @@ def main(path):
         st, pr = tieb.run(o['cfg'], cases, seed, None, None, None, (o['case'],))
         for p in pr:
             p.pop('values', None)
+            print(json.dumps(p, indent=1))
+        print('reproduced' if pr else 'not reproduced on the current tree')
+        return 1 if pr else 0
+    if kind == 'diagnostics':
+        import diag
+        o = d['observed']
+        if o['case'].startswith('soup/'):
+            _, sd, idx = o['case'].split('/')
+            mods = [m for m in diag.soup_modules(int(sd), int(idx) + 1) if m[0] == int(idx)]
+            xp = {}
+            res, _ = diag.check_crate(o['cfg'], mods, True, xp)
+            ds = res[int(idx)]
+            bad = [x for x in ds if 'panicked' in x['message'] or x['on_use']] or not re.search(r'\b(struct|enum|union)\s', xp.get(int(idx), ''))
+            print(mods[0][1])
+            print(json.dumps(ds, indent=1))
+            print('reproduced' if bad else 'not reproduced on the current tree')
+            return 1 if bad else 0
+        cases = [c for c in corpus.quick_corpus(seed) if c[0] == o['case']]
+        if not cases:
+            print('case %s is not in the corpus for seed %d' % (o['case'], seed))
+            return 2
+        st, pr = diag.run(o['cfg'], cases)
+        for p in pr:
             print(json.dumps(p, indent=1))
         print('reproduced' if pr else 'not reproduced on the current tree')
         return 1 if pr else 0
